@@ -139,7 +139,7 @@ fn base_spec(c: &FCase) -> RunSpec {
     s.sched_seed = c.sched_seed;
     s.yield_permille = c.yield_permille;
     s.log_events = true;
-    s.final_wait_ms = 60_000;
+    s.final_wait_ms = 15_000;
     s
 }
 
@@ -234,7 +234,7 @@ fn run_fcase(report: &mut Report, c: &FCase, stallcheck: bool) -> bool {
         _ => {}
     }
     spec.script = c.script.clone();
-    let log = match par::run_watched(&spec, Duration::from_secs(60)) {
+    let log = match par::run_watched(&spec, Duration::from_secs(30)) {
         Watched::Done(l) => l,
         Watched::Stalled { cpu_idle } => {
             if stallcheck {
@@ -243,7 +243,7 @@ fn run_fcase(report: &mut Report, c: &FCase, stallcheck: bool) -> bool {
             if cpu_idle {
                 let (all, any) = c11::reproduce_stall("C13", &replay);
                 if all {
-                    report.violation(sig("hang"), "a client call did not return within 60 s with an idle process; reproduced in two fresh processes".to_string(), replay);
+                    report.violation(sig("hang"), "a client call did not return within 30 s with an idle process; reproduced in a fresh process".to_string(), replay);
                 } else {
                     report.inconclusive(if any { "stall reproduced only once" } else { "stall not reproduced" });
                 }
@@ -321,11 +321,18 @@ pub fn run(args: &Args, report: &mut Report) {
     sched::install();
     let seed = args.seed ^ 0xC13;
     if let Some(r) = &args.replay {
-        run_fcase(report, &fcase_from_json(r), args.mode.as_deref() == Some("stallcheck"));
+        let stallcheck = args.mode.as_deref() == Some("stallcheck");
+        for _ in 0..(if stallcheck { 40 } else { 1 }) {
+            run_fcase(report, &fcase_from_json(r), stallcheck);
+        }
         return;
     }
     let n = report.size(360, 6000);
     for i in 0..n {
+        if c11::too_many_hangs(report) {
+            report.inconclusive("remaining cases not run after repeated unfinished runs");
+            break;
+        }
         if !run_fcase(report, &gen_fcase(seed, i), false) {
             report.inconclusive("remaining cases not run after a stalled run");
             break;
